@@ -253,7 +253,8 @@ fn run_case(rng: &mut Rng) -> (CaseResult, String, String) {
     }
   }
   if unresolved.is_empty() {
-    res.fails.push(("generator:no-unresolved-class".into(), format!("the generated document does not report `{target}` as unresolved")));
+    let errs: Vec<String> = state.get_errors(&m).iter().map(|e| e.to_ide_format(&state.heap, &state.string_sources).ide_error).collect();
+    res.fails.push(("skip:no-unresolved-class".into(), format!("the generated document does not report `{target}` as unresolved; diagnostics {errs:?}; doc:\n{doc}")));
   }
   (res, layout, doc)
 }
@@ -306,8 +307,9 @@ fn main() {
     comps += c;
     run.evaluations += cases;
     for (sig, (what, replay)) in found {
-      if sig.starts_with("generator:") {
-        run.harness_errors.push(what);
+      if sig.starts_with("skip:") {
+        run.inconclusive("document does not report the class as CannotResolveClass (no quick fix is offered)");
+        let _ = what;
       } else {
         run.violation(sig, what, replay);
       }
